@@ -40,8 +40,12 @@ type kase struct {
 	// NilWrapper: the listener's options carry a registration wrapper that is
 	// a nil pointer of a concrete type (a configuration slip the library
 	// tolerates: it treats it as "no wrapper")
-	NilWrapper bool  `json:"typed_nil_registration_wrapper,omitempty"`
-	Seed       int64 `json:"seed"`
+	NilWrapper bool `json:"typed_nil_registration_wrapper,omitempty"`
+	// Cert: the client certificate an "alpn" peer presents: "" = the honest
+	// node's chain; "no-names" = a self-signed certificate of the honest
+	// node's key without any name; "outsider-no-names" = the same of another key
+	Cert string `json:"client_certificate,omitempty"`
+	Seed int64  `json:"seed"`
 }
 
 type world struct {
@@ -237,6 +241,10 @@ func (w *world) cases(c *engine.Ctx, emit func(kase)) {
 		b2, _ := proto.Marshal(r2)
 		emit(kase{Kind: "alpn", Protos: chunks(prefixes["fetch"], b2), Desc: "well-signed fetch request with nonce " + name + " and a malformed re-wrapped blob"})
 	}
+	// a genuine (replayed) authentication request behind certificates that carry no names at all
+	for _, ck := range []string{"no-names", "outsider-no-names"} {
+		emit(kase{Kind: "alpn", Protos: chunks(prefixes["auth"], auth), Desc: "honest authentication request presented with a self-signed certificate without names (" + ck + ")", Cert: ck})
+	}
 	emit(kase{Kind: "alpn", Protos: append(chunks(prefixes["fetch"], fetch), chunks(prefixes["auth"], auth)...), Desc: "fetch then auth request in one hello"})
 	emit(kase{Kind: "alpn", Protos: append(chunks(prefixes["auth"], auth), chunks(prefixes["fetch"], fetch)...), Desc: "auth then fetch request in one hello"})
 	emit(kase{Kind: "alpn", Protos: append(chunks(prefixes["auth"], auth), prefixes["pref"]+"nope", prefixes["pref"]+"nope2"), Desc: "auth request with two unknown certificate preferences"})
@@ -391,6 +399,13 @@ func (w *world) badClient(k kase, addr string) {
 	case "alpn":
 		c := tls.Client(raw, &tls.Config{MinVersion: tls.VersionTLS12, InsecureSkipVerify: true, NextProtos: k.Protos,
 			GetClientCertificate: func(*tls.CertificateRequestInfo) (*tls.Certificate, error) {
+				switch k.Cert {
+				case "no-names":
+					return &tls.Certificate{Certificate: [][]byte{harness.SelfSignedCertNoNames(w.honest.K)}, PrivateKey: w.honest.K.Priv}, nil
+				case "outsider-no-names":
+					o := harness.NewCertKey("c14-outsider", w.seed)
+					return &tls.Certificate{Certificate: [][]byte{harness.SelfSignedCertNoNames(o)}, PrivateKey: o.Priv}, nil
+				}
 				b := w.honest.Creds.CertificateBundles[0]
 				return &tls.Certificate{Certificate: [][]byte{b.CertificateDer, b.CaCertificateDer}, PrivateKey: w.honest.K.Priv}, nil
 			}})
@@ -570,7 +585,7 @@ func replay(c *engine.Ctx, raw json.RawMessage) (string, bool) {
 	w := newWorld(k.Seed)
 	if k.Kind == "alpn" && k.Protos == nil {
 		w.cases(&engine.Ctx{Tier: "thorough", Seed: k.Seed}, func(x kase) {
-			if x.Desc == k.Desc && x.BaseTLS == k.BaseTLS && x.NilWrapper == k.NilWrapper {
+			if x.Desc == k.Desc && x.BaseTLS == k.BaseTLS && x.NilWrapper == k.NilWrapper && x.Cert == k.Cert {
 				k.Protos = x.Protos
 			}
 		})
